@@ -9,6 +9,10 @@ CLAIMED = {
             "Static decision of the structural clauses of DESIGN section 3 C18: every hand-out of state-variable storage lowers the documented stage and bumps the value version on all paths; "
             "core mutators perform their tabled version/flag/notification effects; copy discipline; only reviewed functions write stage/version fields; State forwards to StateImpl. "
             "Holds for every history because it holds on every CFG path; comparison operators and loop bounds are not decided."),
+    "C33": ("must-hold LOCKSET data-flow, condition-variable protocol (CVPROTO), ORDER/STRIDE/PAIRCALL path rules on the CFGs of the three executors",
+            "Static decision of DESIGN section 3 C33: every access to a shared executor field is under its mutex or a checked published-before-wake access; every predicate-changing write is "
+            "followed by the right notify; initialize < execute < barrier(finish under lock) on every path; index striping shape; 2D pass flags; work-queue pop/execute/delete/complete pairing. "
+            "Holds for every schedule because it holds on every path with a must-hold lockset; the triangle/square partition tables and general deadlock freedom are not decided."),
 }
 NA = {
  "C01": "numerical identity between O(n) recursions; no clause is visible in the shape of the code",
